@@ -37,6 +37,8 @@ bound = z3.Function("bound", Bs, Ids, BOOL)   # variable id is bound
 get = z3.Function("get", Bs, Ids, Vs)         # its value
 tval = z3.Function("tval", Ts, Ids, Vs)       # value of variable id under a total assignment
 truthy = z3.Function("truthy", Vs, BOOL)      # bool(value)
+boolval = z3.Function("boolval", BOOL, Vs)    # the Python bool as a value
+iterable = z3.Function("iterable", Vs, BOOL)  # hasattr(value, "__iter__") and not a string
 upd = z3.Function("upd", Bs, Ids, Vs, Bs)     # {**b, id: v}
 _VIDS = {}
 
@@ -51,6 +53,7 @@ def vid(k):
 def distinct_ids():
     vs = list(_VIDS.values())
     return [z3.Distinct(*vs)] if len(vs) > 1 else []
+mrg = z3.Function("mrg", Bs, Bs, Bs)         # {**b1, **b2}
 EMPTY = z3.Const("empty_bindings", Bs)
 
 
@@ -74,7 +77,9 @@ def base_axioms():
         z3.ForAll([b, i, v, t], z3.Implies(z3.Or(z3.Not(bound(b, i)), get(b, i) == v), ext(upd(b, i, v), t) == z3.And(ext(b, t), tval(t, i) == v)),
                   patterns=[ext(upd(b, i, v), t)]),
         z3.ForAll([b, i, v], z3.Implies(z3.Or(z3.Not(bound(b, i)), get(b, i) == v), sub(b, upd(b, i, v))), patterns=[upd(b, i, v)]),
+        z3.ForAll([s, b], z3.Implies(sub(s, b), mrg(s, b) == b), patterns=[mrg(s, b)]),
         z3.ForAll([t], ext(EMPTY, t), patterns=[ext(EMPTY, t)]),
+        truthy(boolval(z3.BoolVal(True))), z3.Not(truthy(boolval(z3.BoolVal(False)))),
         z3.ForAll([i], z3.Not(bound(EMPTY, i)), patterns=[bound(EMPTY, i)]),
     ]
 
@@ -124,6 +129,8 @@ class Bnd(Opaque):
             for k, v in dict_items(src):
                 r = r.m_with(vm, k, v)
             return r
+        if isinstance(src, Bnd):
+            return Bnd(mrg(self.t, src.t), self.world)
         raise AssertionError(f"merge of bindings with {src!r}")
 
     def m_getattr(self, vm, name):
@@ -134,6 +141,15 @@ class Bnd(Opaque):
                     return self.world.hashed(it, get(self.t, i))
                 return a[1] if len(a) > 1 else None
             return Builtin("dict.get", g)
+        if name == "items":
+            def items(it, fr, a, k):
+                # the entries for the ids the harness knows about (every use filters by such ids)
+                out = []
+                for kid in sorted(self.world.known_ids):
+                    if it.ctx.branch(bound(self.t, vid(kid))):
+                        out.append((kid, self.world.hashed(it, get(self.t, vid(kid)))))
+                return PyList(out)
+            return Builtin("dict.items", items)
         raise AssertionError(f"bindings.{name} is not modelled")
 
     def m_eq(self, vm, other):
@@ -154,6 +170,7 @@ class Child:
         self.occ = z3.Function(f"{name}_occ", Bs, Ts, Os)      # Skolem witnesses of Complete
         self.wit = z3.Function(f"{name}_wit", Bs, Ts, Bs)
         self.flagT = z3.Function(f"{name}_witness_true", Bs, Ts, BOOL)
+        self.owns = z3.Function(f"owns_{name}", Ids, BOOL)      # ids of the child's own subtree
 
     def contract_at(self, sig, gv=(), guard=()):
         """Contract instance for the stream  child._evaluate__(sig)  (call-site instantiation).  gv / guard: the binders
@@ -176,12 +193,19 @@ class Child:
             consts_of(g, used)
         gv = [c for c in gv if c.get_id() in used]
 
+        gv_ids = {c.get_id() for c in gv}
+        # ground atoms stay in the hypothesis but are no triggers
+        guard_pats = [g for g in guard if consts_of(g, set()) & gv_ids]
+
         def fa(vs, hyp, concl, pats):
             body = z3.Implies(z3.And(*(guard + hyp)), concl) if (guard or hyp) else concl
-            return z3.ForAll(gv + vs, body, patterns=[z3.MultiPattern(*(guard + pats))])
+            return z3.ForAll(gv + vs, body, patterns=[z3.MultiPattern(*(guard_pats + pats))])
         out = []
+        iv = z3.Const("civ", Ids)
         for M in (T, F):
             out.append(fa([o, b], [M(sig, o, b)], sub(sig, b), [M(sig, o, b)]))
+            # frame: an output binds nothing outside the child's own subtree
+            out.append(fa([o, b, iv], [M(sig, o, b), z3.Not(self.owns(iv))], bound(b, iv) == bound(sig, iv), [M(sig, o, b), bound(b, iv)]))
         if self.kind == "condition":
             out.append(fa([o, b, t], [T(sig, o, b), ext(b, t)], h(t), [T(sig, o, b), ext(b, t)]))
             out.append(fa([o, b, t], [F(sig, o, b), ext(b, t)], z3.Not(h(t)), [F(sig, o, b), ext(b, t)]))
@@ -210,10 +234,16 @@ class EqlWorld:
             ctx.assume(ax, axiom=True)
         ctx.world = self
         self.children = {}
+        self.known_ids = set()
+        self.attr_fns = {}
         self.clauses = []
         self.calls = []
         self.value_objs = {}
+        # tree-shaped expressions: evaluating a child never re-enters the node itself, so the node's own parent pointer is
+        # not written by the loops over child streams (the by-name havoc would conflate it with the children's)
+        vm.spec.havoc_exclude = set(getattr(vm.spec, "havoc_exclude", ())) | {"_eval_parent_"}
         vm.spec.opaque_hooks["sterm_truth"] = lambda it, v: wrap_bool(truthy(v.t))
+        vm.spec.opaque_hooks["sterm_getattr"] = self._sterm_getattr
         vm.spec.opaque_hooks["id"] = self._id_hook
         vm.spec.stubs["SymbolicExpression._evaluate__"] = self._child_evaluate
         self.OR = vm.loader.cls(SYM, "OperationResult")
@@ -226,6 +256,20 @@ class EqlWorld:
         if isinstance(v, (Obj, Opaque)):
             return 1000000 + v.oid
         return 999999
+
+    def attr_fn(self, name):
+        if name not in self.attr_fns:
+            self.attr_fns[name] = z3.Function(f"attr_{name}", Vs, Vs)
+        return self.attr_fns[name]
+
+    def _sterm_getattr(self, it, v, name):
+        if name == "__iter__":
+            if it.ctx.branch(iterable(v.t)):
+                return Builtin("__iter__", lambda *a: None)
+            it.raise_("AttributeError", name)
+        if name in self.attr_fns:
+            return STerm(self.attr_fns[name](v.t))
+        it.raise_("AttributeError", name)
 
     def hashed(self, vm, val_term):
         o = vm.alloc(self.HV, {"value": STerm(val_term), "id_": 0}, tag="hashed-value")
@@ -241,15 +285,20 @@ class EqlWorld:
         return self.lift(v)
 
     def lift(self, pyval):
-        key = key_of(pyval) if not isinstance(pyval, STerm) else None
         if isinstance(pyval, STerm):
             return pyval.t
+        if isinstance(pyval, SBool):
+            return boolval(pyval.t)
+        if isinstance(pyval, bool):
+            return boolval(z3.BoolVal(pyval))
+        key = key_of(pyval)
         if key not in self.value_objs:
             self.value_objs[key] = z3.Const(f"const_{len(self.value_objs)}", Vs)
         return self.value_objs[key]
 
     def child(self, name, node_id, kind="condition", cls_name="SymbolicExpression"):
         c = Child(self, name, node_id, kind)
+        self.known_ids.add(node_id)
         o = self.vm.alloc(self.vm.loader.cls(SYM, cls_name), {"_id_": node_id, "_is_false_": False, "_conclusion_": None}, tag=f"child-{name}")
         o.fields["ghost_child"] = c
         c.obj = o
@@ -266,7 +315,9 @@ class EqlWorld:
         src = args[1] if len(args) > 1 else kwargs.get("sources")
         parent = kwargs.get("parent", args[2] if len(args) > 2 else None)
         sig = src.t if isinstance(src, Bnd) else EMPTY
-        self.calls.append({"child": c, "sig": sig, "parent": parent, "conds": list(ctx.conds), "fresh": list(ctx.fresh_log)})
+        if not hasattr(self, "_mark"):
+            self.mark()          # the first child call: the harness set-up is over
+        self.calls.append({"child": c, "sig": sig, "parent": parent, "conds": list(ctx.conds[self.mark_index():]), "fresh": list(ctx.fresh_log)})
         for ax in c.contract_at(sig):
             ctx.assume(ax, axiom=True)
         world = self
@@ -282,12 +333,19 @@ class EqlWorld:
             return r
         return SymStream(f"{c.name}@{len(self.calls)}", elem, length=None, meta={"kind": "generator", "child": c, "sigma": sig})
 
+    def mark(self):
+        """Everything assumed so far is a hypothesis of the lemma (about shared constants), not a path condition."""
+        self._mark = len(self.vm.ctx.conds)
+
+    def mark_index(self):
+        return getattr(self, "_mark", 0)
+
     # ---- recording the outputs of the node under verification
     def record(self, vm, result):
         ctx = vm.ctx
         b = result.fields["bindings"]
         flag = result.fields["is_false"]
-        self.clauses.append({"pc": list(ctx.conds), "b": b.t if isinstance(b, Bnd) else None, "flag": flag,
+        self.clauses.append({"pc": list(ctx.conds[self.mark_index():]), "b": b.t if isinstance(b, Bnd) else None, "flag": flag,
                              "site": tuple(ctx.decisions[: ctx.di]), "fresh": list(ctx.fresh_log), "operand": result.fields.get("operand")})
         return self.clauses[-1]
 
@@ -325,10 +383,35 @@ def _rename(clause, suffix, shared):
             "binders": [s[1] for s in subs], "orig_binders": [s[0] for s in subs]}
 
 
+def _uconsts(e, acc):
+    if z3.is_const(e) and e.decl().kind() == z3.Z3_OP_UNINTERPRETED:
+        acc.add(e.get_id())
+    if z3.is_quantifier(e):
+        _uconsts(e.body(), acc)
+    else:
+        for ch in e.children():
+            _uconsts(ch, acc)
+    return acc
+
+
 def call_hypotheses(worlds, shared):
     """The children's contracts at every call site met on any path, universally closed over the binders of the path
-    prefix and guarded by its path conditions."""
+    prefix and guarded by its path conditions; plus every closed axiom assumed on a path (environment facts)."""
     hyps, seen = [], set()
+    for w in worlds:
+        ctx = w.vm.ctx
+        fresh_ids = {c.get_id() for c in ctx.fresh_log if not any(z3.eq(c, s_) for s_ in shared)}
+        for f in ctx.axiom_log:
+            k = f.get_id()
+            if k in seen:
+                continue
+            seen.add(k)
+            if not (_uconsts(f, set()) & fresh_ids):
+                hyps.append(f)
+        for f in ctx.conds[: w.mark_index()]:
+            if f.get_id() not in seen:
+                seen.add(f.get_id())
+                hyps.append(f)
     for w in worlds:
         for call in w.calls:
             gv = [c for c in call["fresh"] if not any(z3.eq(c, s) for s in shared)]
@@ -340,34 +423,46 @@ def call_hypotheses(worlds, shared):
     return hyps
 
 
-def finalize_cover(clauses, sigma0, shared, prefix, want_unique=True, timeout_ms=15000, hyps=()):
+def finalize_cover(clauses, sigma0, shared, prefix, want_unique=True, timeout_ms=15000, hyps=(), tau_hyps=None):
     """Complete and Unique over the set of yield clauses collected from all paths."""
     checks = []
     t0 = z3.Const("tau0", Ts)
     hyps = list(hyps)
 
     def run(oid, formulas):
-        s = z3.Solver()
-        s.set("timeout", timeout_ms)
-        s.add(base_axioms())
-        s.add(distinct_ids())
-        s.add(hyps)
-        s.add(formulas)
         import time
         st = time.time()
-        r = s.check()
+        r = z3.unknown
+        reason = None
+        # E-matching on these goals is occasionally unstable: several short attempts with different seeds
+        for seed in range(5):
+            s = z3.Solver()
+            s.set("timeout", max(2000, timeout_ms // 5))
+            if seed == 0:
+                s.set("auto_config", False)
+                s.set("mbqi", False)          # triggers only: deterministic and immediate for the valid obligations
+            else:
+                s.set("random_seed", seed)
+            s.add(base_axioms())
+            s.add(distinct_ids())
+            s.add(hyps)
+            s.add(formulas)
+            r = s.check()
+            if r != z3.unknown:
+                break
+            reason = s.reason_unknown()
         dt = time.time() - st
         if r == z3.unsat:
             checks.append(Check(oid, "discharged", seconds=dt))
         elif r == z3.sat:
             checks.append(Check(oid, "failed", model={"__note__": "counter-model found"}, seconds=dt))
         else:
-            c = Check(oid, "unknown", seconds=dt, reason=s.reason_unknown())
+            c = Check(oid, "unknown", seconds=dt, reason=reason)
             c.model = {"__smt2__": s.to_smt2()[:20000]}
             checks.append(c)
     # Complete: some clause covers tau0
     rs = [_rename(c, f"!c{i}", shared) for i, c in enumerate(clauses)]
-    neg = [ext(sigma0, t0)]
+    neg = [ext(sigma0, t0)] + (list(tau_hyps(t0)) if tau_hyps else [])
     common = []
     for i, c in enumerate(rs):
         body = z3.And(*(c["pc"] + [ext(c["b"], t0)]))
@@ -380,7 +475,7 @@ def finalize_cover(clauses, sigma0, shared, prefix, want_unique=True, timeout_ms
                     continue
                 a = _rename(c1, f"!u{i}a", shared)
                 d = _rename(c2, f"!u{j}b", shared)
-                fs = a["pc"] + d["pc"] + [ext(a["b"], t0), ext(d["b"], t0)]
+                fs = a["pc"] + d["pc"] + [ext(a["b"], t0), ext(d["b"], t0)] + (list(tau_hyps(t0)) if tau_hyps else [])
                 if c1["site"] == c2["site"]:
                     occ_a = [x for x in a["binders"] if x.sort() == Os]
                     occ_d = [x for x in d["binders"] if x.sort() == Os]
